@@ -691,6 +691,55 @@ theorem depsTop_post {ws : WS} {fuel r : Nat} {vis' : List Nat} {d' : DepMap}
       · intro hh; cases hh
       · intro hh; exact absurd hh hnot
 
+/-- completeness of the visited set of the top-level call: every module reachable from `r` was
+    visited (so the final duplicate-path check `dupAmong` really ranges over ALL reachable
+    modules, also those nobody's import statement names a shared path of). -/
+theorem depsTop_vis_complete {ws : WS} {fuel r : Nat} {vis' : List Nat} {d' : DepMap}
+    (h : depsRec ws fuel r true [] ([], []) = .ok (vis', d')) :
+    ∀ x, Reach (msuccO ws) r x → x ∈ vis' := by
+  cases fuel with
+  | zero => simp [depsRec] at h
+  | succ fuel =>
+  obtain ⟨_, hcase⟩ := depsRec_ok_inv h
+  rcases hcase with ⟨hvis, _, _⟩ | ⟨_, d1, nw, hscan, hne, hfold⟩
+  · simp at hvis
+  obtain ⟨add, e1, e2, ndadd, f1, f2⟩ := scan_spec ws r true _ _ _ _ _ hscan
+  simp only [List.nil_append] at e1 e2
+  subst e1
+  have hp := depsFold_post (fun c vis d vis' d' hh => deps_post ws fuel c false [r] vis d vis' d' hh)
+    (sortBy natLe nw) [r] d1 vis' d' hfold
+  obtain ⟨r2, m2, ⟨n2, e3, fl2, k2, nd2⟩, s2⟩ := hp
+  have hd1 : DepMap.keys d1 = nw := by rw [e2, keys_map_pair]
+  have hkeys : DepMap.keys d' = nw ++ DepMap.keys n2 := by rw [e3, keys_append, hd1]
+  have hmsucc : ∀ s ∈ msucc ws r, s ∈ nw := by
+    intro s hs
+    obtain ⟨p, hp, ho, hne⟩ := mem_msucc.mp hs
+    have := f2 p hp s ho hne
+    rwa [hd1] at this
+  have hA : ∀ k ∈ DepMap.keys d', k ∈ vis' := by
+    intro k hk
+    rw [hkeys] at hk
+    rcases List.mem_append.mp hk with h | h
+    · exact (r2 k ((mem_sortBy natLe).mpr h)).1
+    · exact (k2 k h).2.1
+  have hr_vis : r ∈ vis' := m2 r (List.mem_singleton.mpr rfl)
+  have hB : ∀ x ∈ vis', ∀ s ∈ msucc ws x, s ∈ DepMap.keys d' := by
+    intro x hx
+    rcases s2 x hx with h | ⟨_, hs⟩
+    · simp only [List.mem_singleton] at h
+      subst h
+      intro s hs
+      rw [hkeys]
+      exact List.mem_append.mpr (Or.inl (hmsucc s hs))
+    · exact hs
+  intro b hb
+  induction hb with
+  | refl => exact hr_vis
+  | step _ hs hc ih =>
+    simp only [msuccO, Option.some.injEq] at hs
+    subst hs
+    exact hA _ (hB _ ih _ hc)
+
 /-! ### what a failed run means -/
 
 /-- the errors a module can cause by itself: an import provided by two modules, an import nobody
@@ -927,6 +976,27 @@ theorem moduleDeps_error_good {ws : WS} {r : Nat} {e : DErr} (hg : Good ws r)
   · exact absurd h (hg.no_localErr hx)
   · have := hg.disjoint x y hx hy hne f hf
     rw [hp] at this; cases this
+
+/-- Two distinct modules reachable from `r` that have a file path in common make `ModuleDeps()`
+    of `r` fail — also when nobody imports that path (the final `protoFileTracker.validate()`). -/
+theorem moduleDeps_dupAmong_error {ws : WS} {r x y : Nat} (hx : Reach (msuccO ws) r x)
+    (hy : Reach (msuccO ws) r y) (hne : x ≠ y) {f : PFile} (hf : f ∈ modFiles ws x)
+    (hp : hasPath ws y f.path = true) : ∃ e, moduleDeps ws r = .error e := by
+  cases hm : moduleDeps ws r with
+  | error e => exact ⟨e, rfl⟩
+  | ok ds =>
+    exfalso
+    unfold moduleDeps at hm
+    split at hm
+    · cases hm
+    · rename_i vis d hrec
+      have hc := depsTop_vis_complete hrec
+      have hdup : dupAmong ws vis = true := by
+        unfold dupAmong
+        simp only [List.any_eq_true, Bool.and_eq_true, bne_iff_ne, ne_eq]
+        exact ⟨x, hc x hx, y, hc y hy, fun hh => hne hh.symm, f, hf, hp⟩
+      rw [hdup] at hm
+      cases hm
 
 /-- the direct deps listed by a successful `ModuleDeps()` are the first-hop successors. -/
 theorem moduleDeps_direct {ws : WS} {m : Nat} {ds : DepMap} (h : moduleDeps ws m = .ok ds) :
